@@ -52,7 +52,7 @@ TRAILERS = [[(b'x-trailer', b't')], [(b'x-checksum', b'abc'), (b'x-b', b'2')]]
 
 
 def n_cases(tier):
-    return 20000 if tier == 'quick' else 600000
+    return 20000 if tier == 'quick' else 4000000
 
 
 def block_kind(headers):
